@@ -205,6 +205,9 @@ def fresh_of_type(st, name, ty, inputs=None):
         v = SFunc(target=t[1], name=name)
     elif k == "obj":
         v = SObj(name)
+    elif k == "objattrs":
+        v = SObj(name, {an: fresh_of_type(st, "%s.%s" % (name, an), at, None) for an, at in t[1].items()})
+        v.attrs["__dict__"] = dict(v.attrs)
     elif k == "opaque":
         from .glue import Op
         v = Op(name, "param")
